@@ -269,6 +269,33 @@ theorem in_visible (d : StepDef) (body : Body) (callee : CofCfg → Body) (fuel 
        | other => other) :=
   runStepWith_eq d body callee fuel s
 
+/-- **A `description` only words the step's notification.** `run_step` formats it once, up front, right
+    after the `in` arguments are set (so it sees them): if that formatting fails the step ends with
+    that error before any decorator is evaluated; otherwise the step is exactly the decorator stack of
+    `in_visible` - the up-front look at `run`/`skip` that chooses between "description" and
+    "(skipping): description" decides nothing (its own errors are ignored since c7066aa): whether
+    the body runs is decided per iteration by `runConditional` alone. -/
+theorem description_only_words_the_notification (d : StepDef) (body : Body) (callee : CofCfg → Body)
+    (fuel : Nat) (s : St) :
+    runStepDescribed d body callee fuel s =
+      (match describe d (setIn d s) with
+       | some x => raiseExc (setIn d s) x
+       | none => runStepWith d body callee fuel s) := rfl
+
+/-- what is raised up front does not depend on `run` / `skip` / `swallow` at all. -/
+theorem describe_ignores_conditionals (d : StepDef) (r k w : Val) (s : St) :
+    describe { d with run := r, skip := k, swallow := w } s = describe d s := rfl
+
+/-- no description, a falsy one, or one that formats: nothing is raised up front. -/
+theorem describe_quiet (d : StepDef) (s : St) :
+    (d.description = none → describe d s = none) ∧
+    (∀ v, d.description = some v → v.truthy = false → describe d s = none) ∧
+    (∀ v w, d.description = some v → fmtV s v = .ok w → describe d s = none) := by
+  refine ⟨fun h => ?_, fun v h ht => ?_, fun v w h hf => ?_⟩
+  · simp [describe, h]
+  · simp [describe, h, ht]
+  · unfold describe; rw [h]; simp only []; split <;> simp [hf]
+
 /-- **Override**: in that state every `in` key holds the `in` value (the last binding, should a
     key be given twice), whatever the context held under that key before. -/
 theorem in_overrides (d : StepDef) (s : St) (pre post : List (String × Val)) (k : String) (v : Val)
@@ -351,7 +378,7 @@ theorem no_in_no_change (d : StepDef) (s : St) (h : d.inArgs = none) : setIn d s
     first item only; (2) a failing step with `swallow: '{sw}'` where `sw` comes from `in`;
     (3) a plain probe that reports which keys are left. -/
 def demoProg : Program := ⟨[{ name := "main", groups := [
-  ("steps", some [
+  ("steps", .steps [
     { name := some "vprobe",
       inArgs := some [("go", .bool true), ("extra", .int 1),
                       ("p", .dict [(.str "tag", .str "a"),
@@ -359,7 +386,7 @@ def demoProg : Program := ⟨[{ name := "main", groups := [
       run := .str "{go}", foreach := some (.list [.int 10, .int 20, .int 30]) },
     { name := some "vprobe",
       inArgs := some [("sw", .str "TRUE"), ("p", .dict [(.str "tag", .str "b"), (.str "failRest", .str "ValueError")])],
-      swallow := .str "{sw}", line := some 7, col := some 3 },
+      swallow := .str "{sw}", lc := some (6, 2) },
     { name := some "vprobe",
       inArgs := some [("p", .dict [(.str "tag", .str "c"), (.str "keys", .list [.str "go", .str "extra", .str "sw"])])] }])] }]⟩
 
